@@ -1502,6 +1502,8 @@ fn db_queue_case(case: u64, rng: &mut Rng, st: &mut Stats) {
 }
 
 fn main() {
+    // tasks are polled by hand in this binary: see vcore::run::use_plain_block_on
+    vcore::run::use_plain_block_on();
     let mut run = Run::from_args(
         "C06",
         "exploration",
